@@ -181,6 +181,10 @@ class Conn:
             return False
         kind = fault[0]
         self.record['events'].append(('fault', key, fault))
+        if kind == 'debug_then':     # a well-formed MSG_DEBUG first, then the message with the inner fault applied (two deviations at one site)
+            self._queue(wire.packet(wire.debug_tree()))
+            fault = tuple(fault[1])
+            kind = fault[0]
         if kind == 'trunc_close':
             self._queue(data[:fault[1]])
             self._finish(EOF)
@@ -293,6 +297,8 @@ def faults_for_site(site, level='full', trunc_step=1):
             out.append(('debug', d))
         out.append(('emptypayload',))
         out.append(('padoverrun',))
+        out.append(('debug_then', ('len', 0, 'plus1')))
+        out.append(('debug_then', ('emptypayload',)))
     elif site['label'] in ('banner', 'pre_banner'):
         out.append(('prelines', 1))
         out.append(('prelines', 3))
